@@ -152,6 +152,22 @@ def raw_rules(facts, rep):
     return ok
 
 
+def comment_rules(facts, rep, rule="C13-RAW"):
+    """the comment setters replace the comment unconditionally (an empty comment is a comment: it is how a carried-over one is removed)"""
+    ok = True
+    sr = facts.one(r"^write::<impl write::zip_writer::ZipWriter<W>>::set_raw_comment$")
+    ex = Ex(sr)
+    asg = [norm(ex.rvalue(s_["rv"], (b_, si_))) for b_, si_, s_ in sr.stmts() if s_["k"] == "assign" and [q.get("n") for q in s_["place"]["p"] if q["k"] == "field"] == ["comment"]]
+    branches = [b_ for b_ in range(len(sr.blocks)) if not sr.blocks[b_]["cleanup"] and sr.term(b_) and sr.term(b_)["k"] == "switch"]
+    good = len(asg) == 1 and asg[0][0] == "arg" and not branches
+    ok &= rep.check(good, rule, "set_raw_comment:unconditional", where(sr, sr.span), "self.comment = comment, always", "set_raw_comment stores %s under %d condition(s)" % ([show(a)[:40] for a in asg], len(branches)))
+    sc = facts.one(r"^write::<impl write::zip_writer::ZipWriter<W>>::set_comment$")
+    calls = [t_["callee"].split("::")[-1] for _, t_ in sc.calls()]
+    branches = [b_ for b_ in range(len(sc.blocks)) if not sc.blocks[b_]["cleanup"] and sc.term(b_) and sc.term(b_)["k"] == "switch"]
+    ok &= rep.check("set_raw_comment" in calls and not branches, rule, "set_comment:delegates", where(sc, sc.span), "set_comment(s) = set_raw_comment(s.into().into())", "set_comment calls %s under %d condition(s)" % (calls, len(branches)))
+    return ok
+
+
 def run(ctx, rep):
     facts = ctx.facts
     rep.configs.append("default")
@@ -163,6 +179,7 @@ def run(ctx, rep):
         "fields). Behaviour over multi-round histories and foreign bases is not decided.")
     sameparser_rules(facts, rep)
     raw_rules(facts, rep)
+    comment_rules(facts, rep)
     patch_rules(facts, rep, rule="C13-PATCH")
     spec = ctx.spec("appnote.json")
     c = Codec(facts)
